@@ -30,30 +30,42 @@ def P(pid, **kw):
     kw.setdefault('level', 'proof')
     PROPS[pid] = kw
 
-P('C01', owned={'av.kind', 'av.id', 'av.latest', 'gcv.kind', 'gcv.ids', 'gcv.payload', 'state.dump'},
+P('C01', theorems=['Tcs.C01_stored_eq_accepted', 'Tcs.C01_no_shared_parent', 'Tcs.C01_chain_walk', 'Tcs.C01_chain_walk_sql', 'Tcs.C01_chain_walk_mem'],
+  owned={'av.kind', 'av.id', 'av.latest', 'gcv.kind', 'gcv.ids', 'gcv.payload', 'dump.own.latest', 'dump.own.versions', 'dump.own.children', 'dump.other.latest', 'dump.other.versions', 'dump.other.children'},
   oracles=[O.o_c01],
   plan={'quick': [hist('default', 260, LIBHTTP)], 'thorough': [hist('default', 4000, LIBHTTP), hist('long', 600, LIBHTTP)]})
-P('C02', owned={'av.kind', 'av.id', 'av.latest', 'state.dump', 'http.status', 'http.headers'},
+P('C02', theorems=['Tcs.C02_spec', 'Tcs.C02_atomic_compare_append', 'Tcs.C02_new_id_never_issued'],
+  owned={'av.kind', 'av.id', 'av.latest', 'dump.own.latest', 'dump.own.versions', 'dump.own.children', 'dump.own.since', 'http.status.av', 'http.headers.av'},
   oracles=[O.o_c02],
   plan={'quick': [hist('default', 220, LIBHTTP)], 'thorough': [hist('default', 4000, LIBHTTP)]})
-P('C07', owned={'gcv.kind', 'gcv.ids', 'gcv.payload'},
+P('C07', theorems=['Tcs.C07_immutable', 'Tcs.C07_prefix', 'Tcs.C07_immutable_sql', 'Tcs.C07_immutable_mem'],
+  owned={'gcv.kind', 'gcv.ids', 'gcv.payload'},
   oracles=[O.o_c07],
   plan={'quick': [hist('c07', 220, LIBHTTP)], 'thorough': [hist('c07deep', 2500, LIBHTTP)]})
-P('C08', owned={'gcv.kind', 'av.kind', 'http.status'},
+P('C08', theorems=['Tcs.C08_decision', 'Tcs.C08_matches_add_version', 'Tcs.C08_found_is_the_child', 'Tcs.C08_latest_not_found', 'Tcs.C08_on_backend'],
+  owned={'gcv.kind', 'av.kind', 'http.status.gcv', 'http.status.av'},
   oracles=[O.o_c08],
   plan={'quick': [hist('c08', 220, LIBHTTP)], 'thorough': [hist('c08', 3000, LIBHTTP)]})
-P('C10', owned={'snap.accept', 'state.dump', 'as.kind'},
+P('C10', theorems=['Tcs.C10_accept_iff', 'Tcs.C10_window_five', 'Tcs.C10_told_success', 'Tcs.C10_effect', 'Tcs.C10_on_chain', 'Tcs.C10_moves_forward', 'Tcs.C10_anc_grows', 'Tcs.C10_on_backend'],
+  owned={'snap.accept', 'dump.own.snap', 'dump.own.since', 'dump.own.ts', 'dump.own.data', 'as.kind'},
   oracles=[O.o_c10],
   plan={'quick': [hist('c10', 260, 'mem:lib,sql:lib,sql:http')], 'thorough': [hist('c10', 5000, 'mem:lib,sql:lib,sql:http')]})
-P('C11', owned={'snap.vid', 'snap.payload', 'gs.kind', 'gcv.kind'},
+P('C11', theorems=['Tcs.asRunH_lastSnap', 'Tcs.C11_latest_snapshot', 'Tcs.C11_usable_base', 'Tcs.walkOuts_from_base'],
+  owned={'snap.vid', 'snap.payload', 'gs.kind', 'gcv.kind'},
   oracles=[O.o_c11],
   plan={'quick': [hist('c11', 220, LIBHTTP)], 'thorough': [hist('c11', 4000, LIBHTTP)]})
-P('C13', owned={'av.kind', 'av.latest', 'av.urgency', 'gcv.kind', 'gcv.ids', 'gcv.payload', 'snap.accept', 'snap.vid', 'snap.payload', 'gs.kind', 'as.kind', 'state.dump'},
+P('C09', theorems=['Tcs.C09_frame', 'Tcs.C09_own_record_only', 'Tcs.asRunH_projection', 'Tcs.fresh_filter', 'Tcs.C09_noninterference', 'Tcs.C09_noninterference_sql', 'Tcs.C09_noninterference_mem', 'Tcs.C09_others_cannot_change'],
+  owned={'av.kind', 'av.latest', 'gcv.kind', 'gcv.ids', 'gcv.payload', 'snap.accept', 'snap.vid', 'snap.payload', 'gs.kind', 'as.kind', 'state.dump'},
+  oracles=[O.o_c09_frame], proj=True,
+  plan={'quick': [hist('c09', 200, 'mem:lib,sql:lib,sql:http', proj='1')], 'thorough': [hist('c09', 3000, 'mem:lib,sql:lib,sql:http', proj='1')]})
+P('C13', theorems=['Tcs.C13_any_two_backends', 'Tcs.C13_backends_agree', 'Tcs.C13_no_storage_error', 'Tcs.C13_reopen'],
+  owned={'av.kind', 'av.latest', 'av.urgency', 'gcv.kind', 'gcv.ids', 'gcv.payload', 'snap.accept', 'snap.vid', 'snap.payload', 'gs.kind', 'as.kind', 'state.dump'},
   oracles=[],
   aligned=[('mem:lib', 'sql:lib', 'C13: the same request history yields the same responses on every storage backend'),
            ('sql:lib', 'sqlre:lib', 'C13: closing and reopening the database between any two requests changes no later response')],
   plan={'quick': [hist('c13', 260, ALL3)], 'thorough': [hist('c13', 6000, ALL3), hist('long', 500, ALL3)]})
-P('C18', owned={'state.dump'},
+P('C18', theorems=['Tcs.C18_spec', 'Tcs.C18_no_id', 'Tcs.C18_noop'],
+  owned={'noop.dump'},
   oracles=[O.o_c18],
   plan={'quick': [hist('default', 220, LIBHTTP)], 'thorough': [hist('default', 4000, LIBHTTP)]})
 
@@ -124,10 +136,25 @@ def analyse(pid, spec, paths, R):
             except Exception as e:
                 import traceback
                 raise R.Infra(f'oracle {orc.__name__} crashed on run {run.header[:80]}: {traceback.format_exc()[-1500:]}')
+    if spec.get('proj'):
+        full = {}
+        for run in runs:
+            if 'proj' not in run.kv:
+                full[(run.src, run.h, run.setup)] = run
+        for run in runs:
+            if 'proj' in run.kv:
+                f = full.get((run.src, run.h, run.setup))
+                if f is None:
+                    continue
+                c = run.clients[int(run.kv['proj'])]
+                for fl in O.align_compare(f, run, 'C09: the responses a client receives are the same whether or not other clients\' requests are interleaved with its own', only_client=c):
+                    fl['detail'] = f'client {c}: ' + fl['detail']
+                    fails.append((f, fl))
     if spec['aligned']:
         byh = collections.defaultdict(dict)
         for run in runs:
-            byh[(run.src, run.h)][run.setup] = run
+            if 'proj' not in run.kv:
+                byh[(run.src, run.h)][run.setup] = run
         for key, d in byh.items():
             for (sa, sb, sentence) in spec['aligned']:
                 if sa in d and sb in d:
